@@ -30,6 +30,16 @@ Print Assumptions C14_base64_roundtrip.
    any number of arguments, every byte string, empty ones included -- decoding the log entry
    gives back exactly the vector and the proposal id.  ([id_plain]: the id is a UUID, made of
    characters JSON does not escape.) *)
+(* NOTE on what "gives back exactly the vector" means.  [bytes] are VALUES (lists): the decoded
+   arguments of the model are independent of one another by construction.  The Go-level fact this
+   stands for -- and which the executors rely on, because MSET/SET/SETNX/APPEND keep the argument
+   slice itself as the stored value and APPEND grows it in place -- is the premise
+     decoded_args_independent: the [][]byte produced by decoding a log entry has no two elements
+     sharing a backing array (capacity of one never reaches into another),
+   which encoding/json guarantees for [][]byte (one allocation per element) and the RESP parser
+   guarantees on the standalone path.  It is not expressible over values; it is pinned on every run
+   by the aliasing family of checks/c14.py (store several arguments -> grow an earlier stored item
+   in place -> read its neighbours, standalone vs cluster path vs model). *)
 Theorem C14_transparent : forall (args : list bytes) (id : bytes),
     id_plain id = true -> decode_proposal (encode_proposal args id) = Some (args, id).
 Proof. exact decode_encode. Qed.
